@@ -25,6 +25,8 @@ structure Env where
   postSupported : Bool := true
   pkjwtSupported : Bool := true
   jwtProfileVerifier : JWTProfileVerifier := {}
+  /-- the storage methods that fail while this request is served (an input of the request, like the clock and the oracles) -/
+  faults : List String := []
 
 /-- the provider while it serves that request: its JWT access-token verifier is what the REGENERATED
     `Provider.AccessTokenVerifier` builds for the request's issuer -/
@@ -81,13 +83,13 @@ inductive RevokeResp | ok | refused
 def revoke (rt : Router) (atp : ResATProvider) (e : Env) (s : St) (caller : Option String) (hint tok : String) : St × RevokeResp :=
   match rt with
   | .provider =>
-    let w := GenRes.Revoke e.now ((callerR caller).map fun c => (tok, hint, c)) { store := s, ctxIssuer := e.issuer } (provider atp e s)
+    let w := GenRes.Revoke e.now ((callerR caller).map fun c => (tok, hint, c)) { store := s, ctxIssuer := e.issuer, faults := e.faults } (provider atp e s)
     (w.store, if w.out == [.json .empty] then .ok else .refused)
   | .legacy =>
     match caller with
     | none => (s, .refused)       -- `withClient`: the handler is not reached without an authenticated client
     | some c =>
-      match GenRes.LegacyRevocation e.now { store := s, ctxIssuer := e.issuer } ⟨provider atp e s⟩ { Data := { Token := tok, TokenTypeHint := hint }, Client := { id := c } } with
+      match GenRes.LegacyRevocation e.now { store := s, ctxIssuer := e.issuer, faults := e.faults } ⟨provider atp e s⟩ { Data := { Token := tok, TokenTypeHint := hint }, Client := { id := c } } with
       | (w, .ok _) => (w.store, .ok)
       | (w, .error _) => (w.store, .refused)
 
@@ -100,15 +102,19 @@ def introspectRequest (atp : ResATProvider) (e : Env) (s : St) (r : ResHttpReq) 
 /-- the Provider router's revocation endpoint on the whole request: the REGENERATED parser (who is asking, which token, which hint),
     then the handler -/
 def revokeRequest (atp : ResATProvider) (e : Env) (s : St) (r : ResHttpReq) : St × RevokeResp :=
-  let w := GenRes.Revoke e.now (GenRes.ParseTokenRevocationRequest e.now r (provider atp e s)) { store := s, ctxIssuer := e.issuer } (provider atp e s)
+  let w := GenRes.Revoke e.now (GenRes.ParseTokenRevocationRequest e.now r (provider atp e s)) { store := s, ctxIssuer := e.issuer, faults := e.faults } (provider atp e s)
   (w.store, if w.out == [.json .empty] then .ok else .refused)
+
+/-- `Storage.TokenRequestByRefreshToken` as the request of `e` reaches it: a failing call answers with an error -/
+def tokenRequestByRefreshToken (e : Env) (s : St) (tok : String) : Go.R RTok :=
+  if e.faults.contains "TokenRequestByRefreshToken" then .error "storage unavailable" else s.TokenRequestByRefreshToken e.issuer tok
 
 /-- is a subject / actor token acceptable for token exchange: `GetTokenIDAndSubjectFromToken` (its access-token arm is the
     regenerated `getTokenIDAndClaims`, its refresh-token arm `TokenRequestByRefreshToken`) and then the storage policy
     (an access token must still be live) -/
 def exchange (atp : ResATProvider) (e : Env) (s : St) (asRefresh : Bool) (tok : String) : Option Ref :=
   if asRefresh then
-    match s.TokenRequestByRefreshToken e.issuer tok with
+    match tokenRequestByRefreshToken e s tok with
     | .ok r => some (.rt r.token)
     | .error _ => none
   else
@@ -124,7 +130,7 @@ inductive Op
   | revoke (rt : Router) (e : Env) (caller : Option String) (hint tok : String)
   | endSession (iss subject client : String)   -- `iss` = the issuer the logout request is addressed to
   | exchange (e : Env) (asRefresh : Bool) (tok : String)
-  | refresh (iss tok : String)               -- the refresh grant by the owning client, at issuer `iss`
+  | refresh (e : Env) (tok : String)         -- the refresh grant by the owning client, at issuer `e.issuer`
 
 def freshIDs (s : St) (t : Tok) (r : Option RTok) : Bool :=
   !s.toks.any (·.id == t.id) && (match r with | some r => !s.rtoks.any (·.token == r.token) | none => true)
@@ -145,9 +151,9 @@ def step (atp : ResATProvider) (s : St) : Op → St × Option Ref
   | .revoke rt e c hint tok => ((revoke rt atp e s c hint tok).1, none)
   | .endSession iss sub cl => (s.TerminateSession iss sub cl, none)
   | .exchange e asRefresh tok => (s, exchange atp e s asRefresh tok)
-  | .refresh iss tok =>
-    match s.TokenRequestByRefreshToken iss tok with
-    | .ok r => (s.rotate iss tok, some (.rt r.token))
+  | .refresh e tok =>
+    match tokenRequestByRefreshToken e s tok with
+    | .ok r => (s.rotate e.issuer tok, some (.rt r.token))
     | .error _ => (s, none)
 
 def run (atp : ResATProvider) (s : St) : List Op → St × List (Option Ref)
